@@ -22,7 +22,7 @@ def macro_table(chk, cfg, fn):
         chk.cannot("T-macro", fn, "macro table function not found in bio_seq_derive")
         return None
     b = b[0]
-    paths, _ = an.analyse(cfg, b, policy=an.NoInline(), eng=cfg.deng)
+    paths, _ = an.analyse(cfg, b, policy=an.SeqPolicy(), eng=cfg.deng)   # private helpers (a per-character table function, ...) are inlined
     table = {}
     errs = [p for p in paths if p.end == "return" and p.ret[0] == "agg" and p.ret[3] == "Err"]
     oks = [p for p in paths if p.end == "return" and p.ret[0] == "agg" and p.ret[3] == "Ok"]
@@ -69,7 +69,7 @@ def entry_flow(chk, cfg, macro, tablefn, ident):
         chk.cannot("S-macro-entry", macro + "!", "proc-macro entry not found")
         return
     b = b[0]
-    paths, _ = an.analyse(cfg, b, policy=an.NoInline(), eng=cfg.deng)
+    paths, _ = an.analyse(cfg, b, policy=an.InlineExcept("seqarray::" + tablefn, "seqarray::gen_seqarray"), eng=cfg.deng)
     tcall = re.compile(r"^seqarray::%s$" % tablefn)
     good = True
     seen_gen = seen_err = False
@@ -157,13 +157,33 @@ INVALID = [("dna", "aCGT", "lower case first"), ("dna", "ACgT", "lower case midd
 VALID_TWIN = {"dna": "ACGT", "iupac": "ACGT", "kmer": "ACGT"}
 
 
-def doctest_harness():
+def invalid_literals(tier):
+    inv = list(INVALID) + [("iupac", "ACGU", "U in iupac"), ("iupac", "ACGTu", "lower-case u"), ("dna", "ACGT\\r\\nACGT", "CR LF in the middle")]
+    if tier == "thorough":
+        # every printable ASCII character outside the macro's alphabet, in the middle of an otherwise valid literal
+        for kind, alpha in (("dna", "ACGT"), ("iupac", "ACGTRYSWKMBDHVN-X")):
+            for o in range(0x20, 0x7f):
+                ch = chr(o)
+                if ch in alpha or ch in '"\\':
+                    continue
+                lit = "AC%sGT" % ch
+                if (kind, lit) not in [(k, l) for k, l, _ in inv]:
+                    inv.append((kind, lit, "character 0x%02x" % o))
+    return inv
+
+
+def doctest_harness(tier="quick"):
     """compile_fail doctests paired with a compiling no_run twin that differs in the literal only"""
     out = ["//! generated witness harness (never executed: compile_fail / no_run only)\n"]
     names = []
-    for i, (kind, lit, why) in enumerate(INVALID):
+    twins_done = set()
+    for i, (kind, lit, why) in enumerate(invalid_literals(tier)):
         for twin in (False, True):
-            nm = "%s_%02d_%s" % (kind, i, "twin" if twin else "bad")
+            if twin and i >= len(INVALID) and kind in twins_done:
+                continue     # one compiling twin per macro is enough for the sweep
+            if twin:
+                twins_done.add(kind)
+            nm = "%s_%03d_%s" % (kind, i, "twin" if twin else "bad")
             text = VALID_TWIN[kind] if twin else lit
             attr = "no_run" if twin else "compile_fail"
             body = {"dna": 'let _s: &\'static SeqSlice<Dna> = dna!("%s");',
@@ -270,7 +290,7 @@ def run(ctx, chk):
             bs = [b for b in crate.bodies if b["path"] == "kmer_%02d" % i]
             chk.ob("W-kmer", 'kmer!("%s"%s)' % (s[:12], stg), len(bs) == 1, "kmer! witness did not type-check with K = %d" % len(s))
     # ---- (3) compile_fail witnesses ----
-    lib, names = doctest_harness()
+    lib, names = doctest_harness(ctx.tier)
     res, out, rc = witness.doctests("bsq_witness_bad", lib)
     for nm, twin, kind, lit, why in names:
         r = res.get(nm)
